@@ -97,10 +97,10 @@ func VerifLemma_C02B_RulesConfig() {
 	ignore := map[string][]string{}
 	switch verifNondetChoice(verifParam("IGNORE")) {
 	case 1:
-		ignore["CA"] = []string{"b", "a"}
+		ignore["CA"] = []string{"a"}
 	case 2:
-		ignore["CB"] = []string{"b", "a"}
-		ignore["R0"] = []string{"b", "a"}
+		ignore["CB"] = []string{"a"}
+		ignore["R0"] = []string{"b"}
 	}
 
 	cfg, err := newRulesConfig(use, except, []string{"z", "y"}, ignore, allRules, allCategories, check.RuleTypeLint, nil)
@@ -216,7 +216,19 @@ func VerifLemma_C02B_RulesConfig() {
 	}
 	verifAssert(len(cfg.IgnoreRuleIDToRootPaths) == len(wantIgnore), "ignore map: one entry per affected rule")
 	for _, id := range wantIgnore {
+		var wantPaths []string
+		for _, k := range ignoreKeys {
+			if vhContains(undeprecate(expand([]string{k})), id) {
+				for _, p := range ignore[k] {
+					wantPaths = vhInsertSorted(wantPaths, p)
+				}
+			}
+		}
 		paths, ok := cfg.IgnoreRuleIDToRootPaths[id]
-		verifAssert(ok && len(paths) == 2, "ignore map: both paths for every affected rule")
+		verifAssert(ok && len(paths) == len(wantPaths), "ignore map: the union of the paths of every key that covers the rule")
+		for _, p := range wantPaths {
+			_, has := paths[p]
+			verifAssert(has, "ignore map: path present under every map order")
+		}
 	}
 }
